@@ -402,6 +402,15 @@ def altered(d, s):
     return r is not None and r != (s, '')
 
 
+def contains_altered(d, py):
+    """some string inside the value is hit by a string-level defect (reported under its own key)"""
+    if isinstance(py, str):
+        return altered(d, py)
+    if isinstance(py, (list, tuple)):
+        return any(contains_altered(d, x) for x in py)
+    return False
+
+
 def report_string_failure(ctx, d, s, lit, tr, r):
     m = minimise(s, lambda x: altered(d, x)) if altered(d, s) else s
     if d == 'postgres' and len(m) == 2 and m[0] == '\x00' and _is_oct(m[1]):
@@ -492,8 +501,14 @@ def run(ctx):
                     ctx.oracle_fail('C02:%s:numeric-text:%s' % (d, enc(text)),
                                     'numeric text %r is not a plain number token group' % text, desc)
                 want = None if got is None else got[:-1]
-            elif want is not None:
-                if got is None or got[:-1] != want or got[-1] != ('P', ')'):
+            elif contains_altered(d, v.py):
+                ctx.count('value:skipped (contains a string with the string-level defect)')
+            else:
+                if want is None:
+                    bad = got is not None
+                else:
+                    bad = got is None or got[:-1] != want or got[-1] != ('P', ')')
+                if bad:
                     ctx.oracle_fail('C02:%s:value-tokens:%s' % (d, v.spec),
                                     'sqlrepr gives %r whose tokens are %s, expected %s' % (text, show_toks(got), show_toks(want)), desc)
             if outs is not None:
@@ -600,7 +615,9 @@ def run_statements(ctx):
                 want = 'error'
             ctx.case((d, kind, table, tuple(names), tuple(v.spec for v in vs)), kind='stmt:' + kind)
             got = ref_tokens(d, sql)
-            if want == 'error' or got != want:
+            if any(contains_altered(d, v.py) for v in vs):
+                ctx.count('stmt:skipped (contains a string with the string-level defect)')
+            elif want == 'error' or got != want:
                 ctx.oracle_fail('C02:%s:statement-skeleton:%s' % (d, kind),
                                 'the %s statement %r tokenises to %s, expected %s' % (kind, sql, show_toks(got),
                                                                                        want if want == 'error' else show_toks(want)), desc)
